@@ -63,12 +63,25 @@ func clobberedBetween(a, b *ssa.UnOp) bool {
 		}
 		return false
 	}
-	cl, reach := pathTo(locOf(a), isClobber, func(x ssa.Instruction) bool { return x == ssa.Instruction(b) }, nil)
-	if !reach {
-		return false
-	}
-	_, back := pathTo(locOf(cl), func(x ssa.Instruction) bool { return x == ssa.Instruction(b) }, nil, nil)
-	return back
+	// the fact established at a is about a's last execution before b: only a
+	// clobbering instruction that can run after a (without b in between) and
+	// from which b is reached without running a again matters
+	isA := func(x ssa.Instruction) bool { return x == ssa.Instruction(a) }
+	isB := func(x ssa.Instruction) bool { return x == ssa.Instruction(b) }
+	clob := false
+	allInstrs(a.Parent(), func(ins ssa.Instruction) {
+		if clob || !isClobber(ins) {
+			return
+		}
+		is := func(x ssa.Instruction) bool { return x == ins }
+		if _, there := pathTo(locOf(a), is, isB, nil); !there {
+			return
+		}
+		if _, back := pathTo(locOf(ins), isB, isA, nil); back {
+			clob = true
+		}
+	})
+	return clob
 }
 
 func sameAddr(a, b ssa.Value) bool {
